@@ -370,7 +370,11 @@ class C08(Check):
             'requests failing onto the SAME shared errors_map object (oversized form, invalid JSON, malformed '
             'multipart with request-specific text), urlencoded / chunked / multipart / chunked-multipart bodies with '
             'uploads, Request.copy() with edits of the copy after header views were cached, before/after_request '
-            'hooks, 404/405/bad path/empty/HEAD/204; quick: every single preemption point of thread 1 (every k-th '
+            'hooks, 404/405/bad path/empty/HEAD/204, two requests through ONE route object with int/float/re/rex[selector]/path '
+            'filters and different matched values (handler kwargs, url_args), signed cookies with mutable payloads '
+            'edited in place (same raw cookie on both threads and back-to-back); every scheduled run starts COLD '
+            '(lazily filled module-level caches emptied: template lines, filter cache; found by walking the package) '
+            'and the module-level state left behind is compared with that of an unpreempted run in a fresh process; quick: every single preemption point of thread 1 (every k-th '
             'line for programs over 900 lines) x ~45 ordered pairs of kinds and application configurations, plus '
             'random 2-6 preemptions over 2-3 threads; thorough: all pairs, all points. Every thread is compared with '
             'its request served alone in a forked child of the untouched process, and each schedule is replayed in '
@@ -381,6 +385,8 @@ class C08(Check):
                    'handlers reach request and response state only through app.request / app.response',
                    'no code writes the shared HTTPError objects of errors_map (tied: generated table + probe; model '
                    'step errSet is excluded by Prog.Serves)',
+                   'lazily filled module-level caches are init-once cells whose content is a function of the tree (model: '
+                   'tmplLoad / template_cache_init_once; code: cold runs + module-state comparison)',
                    'router answer, parsed query/cookie/form/upload values, status phrases and the error page templates '
                    'are data of the request in the model (properties C01, C02, C04-C07, C15, C18, C20)']
 
